@@ -249,7 +249,55 @@ def map_identity_case(case):
     return dict(reproduced=bool(violated), violated=violated[:12])
 
 
+def mapped_shadow_case(case):
+    """C01: a mapped member of a compound trait.  A value accepted by ANOTHER member of the compound is stored; its shadow is the
+    value itself; nothing but TraitError may come out of an assignment, and reading the default raises nothing."""
+    from traits.api import HasTraits, Map, PrefixMap, Either, Int, Trait, TraitError, Union
+    violated = []
+    reg = {"red": 1, "green": 2}
+
+    def classes():
+        class A(HasTraits):
+            t = Either(Map(reg), Int)
+
+        class B(HasTraits):
+            t = Either(PrefixMap(reg), Int)
+
+        class C(HasTraits):
+            t = Either(Int, Map(reg))
+
+        class D(HasTraits):
+            t = Trait("red", reg, Int)
+        return [("Either(Map, Int)", A), ("Either(PrefixMap, Int)", B), ("Either(Int, Map)", C), ("Trait('red', {...}, Int)", D)]
+    for label, cls in classes():
+        o = cls()
+        try:
+            o.t
+        except Exception as e:
+            violated.append("%s: reading the default raises %r" % (label, e))
+        for v, shadow in ((4, 4), ("red", 1), (7, 7), ("green", 2), ([], None), ("blue", None)):
+            before = o.__dict__.get("t", "<unset>")
+            try:
+                o.t = v
+            except TraitError:
+                if shadow is not None:
+                    violated.append("%s: t = %r rejected" % (label, v))
+                elif o.__dict__.get("t", "<unset>") != before:
+                    violated.append("%s: t = %r rejected but stored" % (label, v))
+                continue
+            except Exception as e:
+                violated.append("%s: t = %r raises %r (stored value now %r, was %r)" % (label, v, e, o.__dict__.get("t", "<unset>"), before))
+                continue
+            if shadow is None:
+                violated.append("%s: t = %r accepted" % (label, v))
+            elif o.t != v or o.t_ != shadow:
+                violated.append("%s: after t = %r: t is %r, shadow t_ is %r (expected %r)" % (label, v, o.t, o.t_, shadow))
+    return dict(reproduced=bool(violated), violated=violated[:12])
+
+
 def run(case):
+    if case.get("family") == "mapped_shadow":
+        return mapped_shadow_case(case)
     if case.get("family") == "Map.__init__":
         return map_identity_case(case)
     if case.get("family") == "nested_compound":
